@@ -1,3 +1,4 @@
+import CfbVerif.Spec.Consts
 import CfbVerif.Raw.Sub
 /-!
 # C16 — strict acceptance implies permissive acceptance with the same meaning
